@@ -406,7 +406,7 @@ func runRandom(rng *rand.Rand) result {
 	return s.finish(false)
 }
 
-var hookPoints = []string{"q.took", "q.inc", "q.sent.fast", "q.offer", "q.sent.own", "q.sent.uni", "q.dec",
+var hookPoints = []string{"p.inner", "p.sent", "q.took", "q.inc", "q.sent.fast", "q.offer", "q.sent.own", "q.sent.uni", "q.dec",
 	"w.got.fast", "w.listen", "w.got.own", "w.got.uni", "w.done", "w.recovered"}
 
 func runCancelAt(rng *rand.Rand, evName string, k int, n, q int) result {
